@@ -688,6 +688,18 @@ def check_property(prop, units, tier, seed, *, explanation, assumptions, stubs=(
 def run_canaries(build, canaries, seed=0):
     """each canary: (name, mutate-dict). detected = some obligation violated or exception path"""
     out = []
+    # a canary is a seeded defect: its path tree may explode like any other changed tree, and it counts as detected as soon as
+    # one obligation fails - so every canary runs under the quick tier's budgets, whatever the tier of the check
+    global CHECK_DEADLINE_S, TASK_BUDGET_S
+    saved = (CHECK_DEADLINE_S, TASK_BUDGET_S, core.PATH_TIMEOUT_S)
+    CHECK_DEADLINE_S, TASK_BUDGET_S, core.PATH_TIMEOUT_S = 150, 60, 60
+    try:
+        return _run_canaries(build, canaries, seed, out)
+    finally:
+        CHECK_DEADLINE_S, TASK_BUDGET_S, core.PATH_TIMEOUT_S = saved
+
+
+def _run_canaries(build, canaries, seed, out):
     for name, mutate, unit_filter in canaries:
         t = time.time()
         applied = []
